@@ -194,6 +194,14 @@ func InitCode(name string) []byte {
 		return evmx.InitCodeFor(StubRuntime, nil)
 	case "sstore":
 		return evmx.InitCodeFor(StubRuntime, evmx.NewAsm().Push(1).Push(0).Op(vm.SSTORE).Bytes())
+	case "regjv":
+		// SSTORE(0,1); register key "k0" for slot 0; journal its value; deploy the stub
+		a := evmx.NewAsm().Push(1).Push(0).Op(vm.SSTORE)
+		a.MStore32(0xC0, []byte{2})
+		a.MStoreBytes(0xE0, []byte("k0"))
+		a.PushBytes(TypeID[:]).Push(0).Push(0).Push(0xC0).Op(vm.VSVJNAL)
+		a.PushBytes(TypeID[:]).Push(1).Push(0).Push(0).Op(vm.VVJNAL)
+		return evmx.InitCodeFor(StubRuntime, a.Bytes())
 	case "revert":
 		return evmx.NewAsm().MStore32(0x80, bytes.Repeat([]byte{0xdd}, 32)).Push(32).Push(0x80).Op(vm.REVERT).Bytes()
 	case "invalid":
@@ -252,6 +260,7 @@ var (
 	retEE = bytes.Repeat([]byte{0xee}, 32)
 	retDD = bytes.Repeat([]byte{0xdd}, 32)
 	clobb = bytes.Repeat([]byte{0x77}, 32)
+	retBig = make([]byte, 0x6001)
 )
 
 // ctxWritePayload is a well-formed abi.encode(bytes key, bytes value) for 0x66.
@@ -450,6 +459,8 @@ func retToken(b []byte) string {
 		return "dd"
 	case bytes.Equal(b, StubRuntime):
 		return "stub"
+	case bytes.Equal(b, retBig):
+		return "big"
 	}
 	return "x:" + hex.EncodeToString(b)
 }
@@ -607,6 +618,14 @@ func (c *comparer) results(rs []evmx.Result) {
 		if c.s.Tops[i].Kind == "create" && x.Err == "" {
 			want = "stub"
 		}
+		if want == "in" {
+			// the identity precompile hands its input back
+			t := c.s.Tops[i]
+			if !bytes.Equal(r.Ret, Calldata(t.Frame, t.Alen)) {
+				c.miss("result.ret", "top %d: ret %x, model: the input", i, r.Ret)
+			}
+			continue
+		}
 		if got := retToken(r.Ret); got != want {
 			c.miss("result.ret", "top %d: ret %q, model %q", i, got, want)
 		}
@@ -733,6 +752,8 @@ func retBytes(tok string) []byte {
 		return retDD
 	case "stub":
 		return StubRuntime
+	case "big":
+		return retBig
 	}
 	return nil
 }
@@ -817,7 +838,7 @@ func (c *comparer) tree() {
 		if m.DInit != "" && m.Err == "" {
 			wantRet = StubRuntime
 		}
-		if nd.Ret != hex.EncodeToString(wantRet) {
+		if nd.Ret != evmx.Hx(wantRet) {
 			c.miss("tree.content", "node %d: ret %s, model %x", i, nd.Ret, wantRet)
 		}
 		gotErr := ""
@@ -926,7 +947,7 @@ func (c *comparer) fired() {
 			c.miss("jp.payload", "firing %d: message gas %d != gas handed to the Aspect %d", i, e.MGas, e.Gas)
 		}
 		if f.Point == "post" {
-			if e.MRet != hex.EncodeToString(retBytes(f.Ret)) {
+			if e.MRet != evmx.Hx(retBytes(f.Ret)) {
 				c.miss("jp.payload", "firing %d: ret %s, model %q", i, e.MRet, f.Ret)
 			}
 			ge := ""
